@@ -89,7 +89,17 @@ class WorkLock:
         self.fd.close()
 
 
-def run(cmd, cwd=None, env=None, timeout=None, log=None):
+def _limit_memory():
+    # no swap on this image: a runaway CBMC must fail (-> UNDECIDED), not take the box down
+    import resource
+    lim = int(os.environ.get("VERIF_MEM_GB", "24")) * 1024 ** 3
+    try:
+        resource.setrlimit(resource.RLIMIT_AS, (lim, lim))
+    except Exception:
+        pass
+
+
+def run(cmd, cwd=None, env=None, timeout=None, log=None, limit_mem=False):
     e = dict(os.environ)
     e.update(ENV_OFFLINE)
     if env:
@@ -97,7 +107,7 @@ def run(cmd, cwd=None, env=None, timeout=None, log=None):
     try:
         p = subprocess.run(cmd, cwd=cwd, env=e, timeout=timeout,
                            stdout=subprocess.PIPE, stderr=subprocess.STDOUT, text=True,
-                           errors="replace")
+                           errors="replace", preexec_fn=_limit_memory if limit_mem else None)
         out, rc = p.stdout, p.returncode
     except subprocess.TimeoutExpired as ex:
         out = (ex.stdout or b"").decode("utf8", "replace") if isinstance(ex.stdout, bytes) else (ex.stdout or "")
